@@ -1,6 +1,7 @@
 package main
 
 import (
+	"bufio"
 	"context"
 	"encoding/json"
 	"errors"
@@ -22,6 +23,8 @@ import (
 	krakendgin "github.com/luraproject/lura/v2/router/gin"
 	"github.com/luraproject/lura/v2/router/mux"
 	"github.com/luraproject/lura/v2/transport/http/server"
+	"golang.org/x/net/http2"
+	"golang.org/x/net/http2/hpack"
 
 	"verif/harness/internal/emit"
 )
@@ -48,6 +51,8 @@ type scenario struct {
 	// for the gate OR the end of the context (then: 500 "context canceled" / an error to the
 	// endpoint handler)
 	ctxAware bool
+	// requests sent by a raw-socket client that offers the h2c upgrade (what curl --http2 sends)
+	h2c map[int]bool
 	// ServiceConfig timeouts handed to the runner (0 = unset)
 	idle, read, write, readHeader time.Duration
 }
@@ -287,8 +292,11 @@ func classify(err error) (string, string) {
 }
 
 // runRunner calls the entry point under test and blocks until it returns
-func (w *world) runRunner(ctx context.Context, s *scenario, port int) (string, string) {
+func (w *world) runRunner(ctx context.Context, s *scenario, port int, run runFunc) (string, string) {
 	flavor := s.flavor
+	if run == nil {
+		run = server.RunServer
+	}
 	ep := &config.EndpointConfig{Endpoint: "/t" + w.token + "/r", Method: "GET", QueryString: []string{"id"},
 		Timeout: 10 * time.Minute, Backend: []*config.Backend{{URLPattern: "/b"}}}
 	sc := config.ServiceConfig{Version: config.ConfigVersion, Address: "127.0.0.1", Port: port, Timeout: 10 * time.Minute,
@@ -301,13 +309,13 @@ func (w *world) runRunner(ctx context.Context, s *scenario, port int) (string, s
 	sc.IdleTimeout, sc.ReadTimeout, sc.WriteTimeout, sc.ReadHeaderTimeout = s.idle, s.read, s.write, s.readHeader
 	switch flavor {
 	case "Plain":
-		return classify(server.RunServer(ctx, sc, w.plainHandler()))
+		return classify(run(ctx, sc, w.plainHandler()))
 	case "Gin":
 		krakendgin.NewFactory(krakendgin.Config{Engine: w.ginEngine(sc), Middlewares: []gin.HandlerFunc{}, HandlerFactory: krakendgin.EndpointHandler,
-			ProxyFactory: w.proxyFactory(), Logger: capLogger{w}, RunServer: server.RunServer}).NewWithContext(ctx).Run(sc)
+			ProxyFactory: w.proxyFactory(), Logger: capLogger{w}, RunServer: run}).NewWithContext(ctx).Run(sc)
 	case "Mux":
 		mux.NewFactory(mux.Config{Engine: mux.DefaultEngine(), Middlewares: []mux.HandlerMiddleware{}, HandlerFactory: mux.EndpointHandler,
-			ProxyFactory: w.proxyFactory(), Logger: capLogger{w}, RunServer: server.RunServer}).NewWithContext(ctx).Run(sc)
+			ProxyFactory: w.proxyFactory(), Logger: capLogger{w}, RunServer: run}).NewWithContext(ctx).Run(sc)
 	}
 	// the routers swallow the runner's value and log it
 	w.mu.Lock()
@@ -339,10 +347,14 @@ func (w *world) attempt(cl *http.Client, flavor string, port, id int) string {
 	if err != nil {
 		return fmt.Sprintf("fail: status %d, %d bytes, then %v", resp.StatusCode, len(body), err)
 	}
-	if resp.StatusCode != 200 {
-		return fmt.Sprintf("fail: status %d", resp.StatusCode)
+	return judge(flavor, id, sp.size, resp.StatusCode, body)
+}
+
+func judge(flavor string, id, size, status int, body []byte) string {
+	if status != 200 {
+		return fmt.Sprintf("fail: status %d", status)
 	}
-	want := expectedBody(id, sp.size)
+	want := expectedBody(id, size)
 	if flavor == "Plain" {
 		if string(body) != string(want) {
 			return fmt.Sprintf("fail: body %d bytes, want %d", len(body), len(want))
@@ -357,6 +369,76 @@ func (w *world) attempt(cl *http.Client, flavor string, port, id int) string {
 		return fmt.Sprintf("fail: json body %d bytes (%v)", len(body), err)
 	}
 	return "full"
+}
+
+// attemptRaw sends the request by hand over a new connection with the h2c upgrade offer, exactly
+// the bytes curl --http2 sends, and understands both answers: HTTP/1.1 (use_h2c is off: the offer
+// is ignored) or 101 + HTTP/2 stream 1.
+func (w *world) attemptRaw(flavor string, port, id int) string {
+	sp := w.spec(id)
+	addr := fmt.Sprintf("127.0.0.1:%d", port)
+	c, err := net.DialTimeout("tcp", addr, 10*time.Second)
+	if err != nil {
+		if errors.Is(err, syscall.ECONNREFUSED) {
+			return "refused"
+		}
+		return "fail: " + err.Error()
+	}
+	defer c.Close()
+	c.SetDeadline(time.Now().Add(clientTimeout))
+	if _, err := fmt.Fprintf(c, "GET /t%s/r?id=%d HTTP/1.1\r\nHost: %s\r\nUser-Agent: curl/8.5.0\r\nAccept: */*\r\nConnection: Upgrade, HTTP2-Settings\r\nUpgrade: h2c\r\nHTTP2-Settings: AAMAAABkAAQCAAAAAAIAAAAA\r\n\r\n", w.token, id, addr); err != nil {
+		return "fail: " + err.Error()
+	}
+	br := bufio.NewReader(c)
+	resp, err := http.ReadResponse(br, &http.Request{Method: "GET"})
+	if err != nil {
+		return "fail: " + err.Error()
+	}
+	if resp.StatusCode != http.StatusSwitchingProtocols {
+		body, err := io.ReadAll(resp.Body)
+		if err != nil {
+			return fmt.Sprintf("fail: status %d, %d bytes, then %v", resp.StatusCode, len(body), err)
+		}
+		return judge(flavor, id, sp.size, resp.StatusCode, body)
+	}
+	// upgraded: the answer comes as HTTP/2 stream 1
+	if _, err := io.WriteString(c, http2.ClientPreface); err != nil {
+		return "fail: h2 " + err.Error()
+	}
+	fr := http2.NewFramer(c, br)
+	fr.ReadMetaHeaders = hpack.NewDecoder(4096, nil)
+	fr.WriteSettings()
+	fr.WriteWindowUpdate(0, 1<<24)
+	status := 0
+	var body []byte
+	for {
+		f, err := fr.ReadFrame()
+		if err != nil {
+			return fmt.Sprintf("fail: h2 status %d, %d bytes, then %v", status, len(body), err)
+		}
+		end := false
+		switch f := f.(type) {
+		case *http2.SettingsFrame:
+			if !f.IsAck() {
+				fr.WriteSettingsAck()
+			}
+		case *http2.MetaHeadersFrame:
+			if f.StreamID == 1 {
+				status, _ = strconv.Atoi(f.PseudoValue("status"))
+				end = f.StreamEnded()
+			}
+		case *http2.DataFrame:
+			if f.StreamID == 1 {
+				body = append(body, f.Data()...)
+				end = f.StreamEnded()
+			}
+		case *http2.RSTStreamFrame, *http2.GoAwayFrame:
+			return fmt.Sprintf("fail: h2 stream ended early (status %d, %d bytes)", status, len(body))
+		}
+		if end {
+			return judge(flavor, id, sp.size, status, body)
+		}
+	}
 }
 
 func (w *world) recOutcome(id int, outcome string, refusedAsEvent bool) {
@@ -376,20 +458,40 @@ func (w *world) recOutcome(id int, outcome string, refusedAsEvent bool) {
 	}
 }
 
-func runScenario(s *scenario) *result {
+type runFunc = func(context.Context, config.ServiceConfig, http.Handler) error
+
+// a group: one or several servers run side by side; with shared set, ONE runner func obtained
+// from server.RunServerWithLoggerFactory drives all of them (independent contexts and ports).
+// order is the global order of the members' script steps.
+type gstep struct {
+	srv int
+	st  step
+}
+
+type group struct {
+	idx    []int // case indices of the members
+	order  []gstep
+	shared bool
+}
+
+func runGroup(g *group, members []*scenario) []*result {
 	ports, stalls := 0, 0
 	for ports < 50 {
-		res, retry := runOnce(s)
+		res, retry := runGroupOnce(g, members)
 		if retry {
 			ports++
 			continue
 		}
-		if len(res.notes) > 0 && stalls < 2 && stallCount.Load() < maxStalls {
+		noted := false
+		for _, r := range res {
+			noted = noted || len(r.notes) > 0
+		}
+		if noted && stalls < 2 && stallCount.Load() < maxStalls {
 			stalls++
 			stallCount.Add(1)
 			continue
 		}
-		res.retries, res.stallRetries = ports, stalls
+		res[0].retries, res[0].stallRetries = ports, stalls
 		return res
 	}
 	fmt.Fprintln(os.Stderr, "C19: could not get a free port in 50 attempts")
@@ -397,7 +499,66 @@ func runScenario(s *scenario) *result {
 	return nil
 }
 
-func runOnce(s *scenario) (*result, bool) {
+func runGroupOnce(g *group, members []*scenario) ([]*result, bool) {
+	var run runFunc
+	if g.shared {
+		run = server.RunServerWithLoggerFactory(nil)
+	}
+	insts := make([]*inst, len(members))
+	for i, s := range members {
+		insts[i] = newInst(s, run)
+	}
+	cleanupAll := func() {
+		for _, in := range insts {
+			in.cleanup()
+		}
+	}
+	for _, gs := range g.order {
+		if insts[gs.srv].do(gs.st) {
+			cleanupAll()
+			return nil, true
+		}
+	}
+	retry := false
+	for _, in := range insts {
+		in.collect()
+		retry = retry || in.addrInUse()
+	}
+	cleanupAll()
+	if retry {
+		return nil, true
+	}
+	res := make([]*result, len(insts))
+	for i, in := range insts {
+		res[i] = in.result()
+	}
+	return res, false
+}
+
+// one server under test with its clients
+type inst struct {
+	s               *scenario
+	w               *world
+	run             runFunc
+	port            int
+	addr            string
+	hl              net.Listener
+	tr, trFresh     *http.Transport
+	cl, clFresh     *http.Client
+	ctx             context.Context
+	cancel          context.CancelFunc
+	cancelled       bool
+	awaited         bool
+	returned        chan struct{}
+	rvKind, errText string
+	clients         sync.WaitGroup
+	counts          []string
+	nextPoll        int
+	fins            map[int]chan struct{}
+	cleaned         bool
+}
+
+func newInst(s *scenario, run runFunc) *inst {
 	w := &world{ctxAware: s.ctxAware, token: fmt.Sprintf("%d-%d", os.Getpid(), tokenCounter.Add(1)), specs: map[int]*reqSpec{}, clients: map[string]string{}}
 	for id, size := range s.sizes {
 		sp := &reqSpec{id: id, size: size, split: s.split[id], gate: make(chan struct{}), entered: make(chan struct{}), finished: make(chan struct{})}
@@ -418,213 +579,224 @@ func runOnce(s *scenario) (*result, bool) {
 		fmt.Fprintln(os.Stderr, "C19: cannot bind:", err)
 		os.Exit(3)
 	}
-	port := hl.Addr().(*net.TCPAddr).Port
+	in := &inst{s: s, w: w, run: run, port: hl.Addr().(*net.TCPAddr).Port, returned: make(chan struct{}), nextPoll: 100, fins: map[int]chan struct{}{}}
 	if !s.portHeld {
 		hl.Close()
 	} else {
-		defer hl.Close()
+		in.hl = hl
 		w.rec("ListenFail", "ListenFail")
 	}
-	addr := fmt.Sprintf("127.0.0.1:%d", port)
-	tr := &http.Transport{DisableKeepAlives: !s.keepalive, MaxIdleConns: 100, MaxIdleConnsPerHost: 100}
-	defer tr.CloseIdleConnections()
-	cl := &http.Client{Transport: tr, Timeout: clientTimeout}
+	in.addr = fmt.Sprintf("127.0.0.1:%d", in.port)
+	in.tr = &http.Transport{DisableKeepAlives: !s.keepalive, MaxIdleConns: 100, MaxIdleConnsPerHost: 100}
+	in.cl = &http.Client{Transport: in.tr, Timeout: clientTimeout}
 	// attempts between the cancellation and the return always use a new connection: a request sent
 	// on an idle keep-alive connection while Shutdown closes idle connections is outside C19 (net/http
 	// may run its handler and drop the answer; Go clients retry such requests)
-	trFresh := &http.Transport{DisableKeepAlives: true}
-	defer trFresh.CloseIdleConnections()
-	clFresh := &http.Client{Transport: trFresh, Timeout: clientTimeout}
-	awaited := false
+	in.trFresh = &http.Transport{DisableKeepAlives: true}
+	in.clFresh = &http.Client{Transport: in.trFresh, Timeout: clientTimeout}
+	in.ctx, in.cancel = context.WithCancel(context.Background())
+	return in
+}
 
-	ctx, cancel := context.WithCancel(context.Background())
-	defer cancel()
-	cancelled := false
-	returned := make(chan struct{})
-	var rvKind, errText string
-	var clients sync.WaitGroup
-	var counts []string
-	addrInUse := func() bool {
-		select {
-		case <-returned:
-			return !s.portHeld && strings.Contains(errText, "address already in use")
-		default:
-			return false
-		}
+func (in *inst) addrInUse() bool {
+	select {
+	case <-in.returned:
+		return !in.s.portHeld && strings.Contains(in.errText, "address already in use")
+	default:
+		return false
 	}
-	cleanup := func() {
-		w.mu.Lock()
-		w.frozen = true
-		specs := make([]*reqSpec, 0, len(w.specs))
-		for _, sp := range w.specs {
-			specs = append(specs, sp)
-		}
-		w.mu.Unlock()
-		cancel()
-		for _, sp := range specs {
-			sp := sp
-			sp.gateOnce.Do(func() { close(sp.gate) })
-		}
-	}
-	nextPoll := 100
-	fins := map[int]chan struct{}{}
+}
 
-	for _, st := range s.script {
-		switch st.op {
-		case "start":
-			go func() {
-				k, e := w.runRunner(ctx, s, port)
-				rvKind, errText = k, e
-				w.rec(emit.App("RunnerReturn", k), "RunnerReturn("+k+")")
-				close(returned)
-			}()
-			if !s.portHeld && !cancelled {
-				// wait until it listens (polling connects; a connect that succeeds is closed at once)
-				deadline := time.Now().Add(bound(waitStep))
-				for {
-					c, err := net.DialTimeout("tcp", addr, time.Second)
-					if err == nil {
-						c.Close()
-						break
-					}
-					if addrInUse() {
-						cleanup()
-						return nil, true
-					}
-					stop := false
-					select {
-					case <-returned:
-						stop = true
-					default:
-					}
-					if stop || time.Now().After(deadline) {
-						w.note("server never listened")
-						break
-					}
-					time.Sleep(200 * time.Microsecond)
-				}
-			}
-		case "launch":
-			id := st.r
-			sp := w.spec(id)
-			clients.Add(1)
-			fin := make(chan struct{})
-			fins[id] = fin
-			go func() {
-				defer clients.Done()
-				o := w.attempt(cl, s.flavor, port, id)
-				for k := 0; k < 30 && o != "full" && (s.read > 0 || s.readHeader > 0 || s.idle > 0); k++ {
-					// a small read / header / idle timeout may close a connection before the request was
-					// read (nothing to do with the shutdown): a request that never reached its handler is
-					// sent again, as any client would
-					select {
-					case <-sp.entered:
-						k = 1000
-					default:
-						o = w.attempt(cl, s.flavor, port, id)
-					}
-				}
-				w.recOutcome(id, o, false)
-				close(fin)
-			}()
-			select {
-			case <-sp.entered:
-			case <-fin:
-				w.note(fmt.Sprintf("launch %d: client finished before its handler ran", id))
-			case <-time.After(bound(waitStep)):
-				w.note(fmt.Sprintf("launch %d: handler did not start", id))
-			}
-		case "release":
-			sp := w.spec(st.r)
-			sp.gateOnce.Do(func() { close(sp.gate) })
-			select {
-			case <-sp.entered:
-				select {
-				case <-sp.finished:
-				case <-time.After(bound(waitStep)):
-					w.note(fmt.Sprintf("release %d: handler did not finish", st.r))
-				}
-				if s.keepalive && fins[st.r] != nil {
-					// keep-alive clients: wait until the connection is back in the client's idle pool,
-					// otherwise the transport dials a spare connection it never uses and the server
-					// (correctly) waits 5 s for that new connection's first byte during Shutdown
-					select {
-					case <-fins[st.r]:
-					case <-time.After(bound(waitStep)):
-						w.note(fmt.Sprintf("release %d: client did not finish", st.r))
-					}
-				}
-			default:
-				w.note(fmt.Sprintf("release %d: handler never started", st.r))
-			}
-		case "cancel":
-			w.rec("Cancel", "Cancel")
-			cancel()
-			cancelled = true
-		case "late":
-			c := clFresh
-			if awaited {
-				c = cl // after the return: also through the keep-alive pool (its connections must be dead)
-			}
-			w.recOutcome(st.r, w.attempt(c, s.flavor, port, st.r), true)
-		case "until_refused":
-			deadline := time.Now().Add(bound(stillOpenWait))
-			n := 0
+func (in *inst) cleanup() {
+	if in.cleaned {
+		return
+	}
+	in.cleaned = true
+	w := in.w
+	w.mu.Lock()
+	w.frozen = true
+	specs := make([]*reqSpec, 0, len(w.specs))
+	for _, sp := range w.specs {
+		specs = append(specs, sp)
+	}
+	w.mu.Unlock()
+	in.cancel()
+	for _, sp := range specs {
+		sp := sp
+		sp.gateOnce.Do(func() { close(sp.gate) })
+	}
+	if in.hl != nil {
+		in.hl.Close()
+	}
+	in.tr.CloseIdleConnections()
+	in.trFresh.CloseIdleConnections()
+}
+
+// do executes one script step; true: the port was taken by somebody else, run the group again
+func (in *inst) do(st step) bool {
+	s, w := in.s, in.w
+	switch st.op {
+	case "start":
+		go func() {
+			k, e := w.runRunner(in.ctx, s, in.port, in.run)
+			in.rvKind, in.errText = k, e
+			w.rec(emit.App("RunnerReturn", k), "RunnerReturn("+k+")")
+			close(in.returned)
+		}()
+		if !s.portHeld && !in.cancelled {
+			// wait until it listens (polling connects; a connect that succeeds is closed at once)
+			deadline := time.Now().Add(bound(waitStep))
 			for {
-				o := w.attempt(clFresh, s.flavor, port, nextPoll)
-				w.recOutcome(nextPoll, o, true)
-				nextPoll++
-				n++
-				if o == "refused" {
+				c, err := net.DialTimeout("tcp", in.addr, time.Second)
+				if err == nil {
+					c.Close()
 					break
 				}
-				if time.Now().After(deadline) || n >= maxPolls {
-					w.rec("StillAccepting", "StillAccepting")
-					w.note("connections still accepted at the end of the bounded wait")
+				if in.addrInUse() {
+					return true
+				}
+				stop := false
+				select {
+				case <-in.returned:
+					stop = true
+				default:
+				}
+				if stop || time.Now().After(deadline) {
+					w.note("server never listened")
 					break
 				}
-				if n > 10 {
-					// polling, not synchronisation: up to maxPolls attempts spread over about 8 s
-					d := time.Duration(n-10) * 10 * time.Millisecond
-					if d > 200*time.Millisecond {
-						d = 200 * time.Millisecond
-					}
-					if stallCount.Load() >= maxStalls {
-						d /= 10
-					}
-					time.Sleep(d)
-				}
-			}
-			counts = append(counts, fmt.Sprintf("until_refused_attempts:%s", bucket(n)))
-		case "pause":
-			select {
-			case <-returned:
-			case <-time.After(pauseWindow + 2*s.maxSmall()):
-				// expired: the runner did not return while requests were in flight (an observation)
-			}
-		case "await":
-			awaited = true
-			select {
-			case <-returned:
-			case <-time.After(bound(waitReturn)):
-				w.note("runner did not return")
+				time.Sleep(200 * time.Microsecond)
 			}
 		}
+	case "launch":
+		id := st.r
+		sp := w.spec(id)
+		in.clients.Add(1)
+		fin := make(chan struct{})
+		in.fins[id] = fin
+		try := func() string {
+			if s.h2c[id] {
+				return w.attemptRaw(s.flavor, in.port, id)
+			}
+			return w.attempt(in.cl, s.flavor, in.port, id)
+		}
+		go func() {
+			defer in.clients.Done()
+			o := try()
+			for k := 0; k < 30 && o != "full" && (s.read > 0 || s.readHeader > 0 || s.idle > 0); k++ {
+				// a small read / header / idle timeout may close a connection before the request was
+				// read (nothing to do with the shutdown): a request that never reached its handler is
+				// sent again, as any client would
+				select {
+				case <-sp.entered:
+					k = 1000
+				default:
+					o = try()
+				}
+			}
+			w.recOutcome(id, o, false)
+			close(fin)
+		}()
+		select {
+		case <-sp.entered:
+		case <-fin:
+			w.note(fmt.Sprintf("launch %d: client finished before its handler ran", id))
+		case <-time.After(bound(waitStep)):
+			w.note(fmt.Sprintf("launch %d: handler did not start", id))
+		}
+	case "release":
+		sp := w.spec(st.r)
+		sp.gateOnce.Do(func() { close(sp.gate) })
+		select {
+		case <-sp.entered:
+			select {
+			case <-sp.finished:
+			case <-time.After(bound(waitStep)):
+				w.note(fmt.Sprintf("release %d: handler did not finish", st.r))
+			}
+			if s.keepalive && in.fins[st.r] != nil {
+				// keep-alive clients: wait until the connection is back in the client's idle pool,
+				// otherwise the transport dials a spare connection it never uses and the server
+				// (correctly) waits 5 s for that new connection's first byte during Shutdown
+				select {
+				case <-in.fins[st.r]:
+				case <-time.After(bound(waitStep)):
+					w.note(fmt.Sprintf("release %d: client did not finish", st.r))
+				}
+			}
+		default:
+			w.note(fmt.Sprintf("release %d: handler never started", st.r))
+		}
+	case "cancel":
+		w.rec("Cancel", "Cancel")
+		in.cancel()
+		in.cancelled = true
+	case "late":
+		c := in.clFresh
+		if in.awaited {
+			c = in.cl // after the return: also through the keep-alive pool (its connections must be dead)
+		}
+		w.recOutcome(st.r, w.attempt(c, s.flavor, in.port, st.r), true)
+	case "until_refused":
+		deadline := time.Now().Add(bound(stillOpenWait))
+		n := 0
+		for {
+			o := w.attempt(in.clFresh, s.flavor, in.port, in.nextPoll)
+			w.recOutcome(in.nextPoll, o, true)
+			in.nextPoll++
+			n++
+			if o == "refused" {
+				break
+			}
+			if time.Now().After(deadline) || n >= maxPolls {
+				w.rec("StillAccepting", "StillAccepting")
+				w.note("connections still accepted at the end of the bounded wait")
+				break
+			}
+			if n > 10 {
+				// polling, not synchronisation: up to maxPolls attempts spread over about 8 s
+				d := time.Duration(n-10) * 10 * time.Millisecond
+				if d > 200*time.Millisecond {
+					d = 200 * time.Millisecond
+				}
+				if stallCount.Load() >= maxStalls {
+					d /= 10
+				}
+				time.Sleep(d)
+			}
+		}
+		in.counts = append(in.counts, fmt.Sprintf("until_refused_attempts:%s", bucket(n)))
+	case "pause":
+		select {
+		case <-in.returned:
+		case <-time.After(pauseWindow + 2*s.maxSmall()):
+			// expired: the runner did not return (requests in flight / context not cancelled): an observation
+		}
+	case "await":
+		in.awaited = true
+		select {
+		case <-in.returned:
+		case <-time.After(bound(waitReturn)):
+			w.note("runner did not return")
+		}
 	}
-	// every client has its outcome before the trace is closed
+	return false
+}
+
+// every client has its outcome before the trace is closed
+func (in *inst) collect() {
 	cdone := make(chan struct{})
-	go func() { clients.Wait(); close(cdone) }()
+	go func() { in.clients.Wait(); close(cdone) }()
 	select {
 	case <-cdone:
 	case <-time.After(bound(clientTimeout + time.Second)):
-		w.note("clients still waiting")
+		in.w.note("clients still waiting")
 	}
-	retry := addrInUse()
-	cleanup()
-	if retry {
-		return nil, true
-	}
-	res := &result{counts: counts, clients: map[string]string{}}
+}
+
+func (in *inst) result() *result {
+	w := in.w
+	res := &result{counts: in.counts, clients: map[string]string{}}
 	w.mu.Lock()
 	res.trace = append(res.trace, w.evs...)
 	res.notes = append(res.notes, w.notes...)
@@ -633,12 +805,12 @@ func runOnce(s *scenario) (*result, bool) {
 	}
 	w.mu.Unlock()
 	select {
-	case <-returned:
-		res.rv, res.errText = rvKind, errText
+	case <-in.returned:
+		res.rv, res.errText = in.rvKind, in.errText
 	default:
 		res.rv = "none"
 	}
-	return res, false
+	return res
 }
 
 func bucket(n int) string {
